@@ -536,4 +536,30 @@ class Evaluator:
             return s.cell.circumradius()
         if isinstance(e, U.FacetArea):
             return s.cell.facet_measure(s.facet)
+        # vertex / edge based quantities (degree-1 geometry): entity numbering and orientation as in basix.topology
+        if isinstance(e, U.CellVertices | U.CellEdgeVectors | U.FacetEdgeVectors | U.CellDiameter | U.MinCellEdgeLength | U.MaxCellEdgeLength
+                      | U.MinFacetEdgeLength | U.MaxFacetEdgeLength):
+            cell = s.cell
+            if cell.sub.embedded_superdegree != 1:
+                raise Unsupported(f"{type(e).__name__} on higher-order geometry")
+            V = cell.vertices()
+            edges = [tuple(x) for x in cell.topo[1]]
+            if isinstance(e, U.CellVertices):
+                return float(V[comp[0]][comp[1]])
+            if isinstance(e, U.CellEdgeVectors):
+                a, b = edges[comp[0]]
+                return float(V[a][comp[1]] - V[b][comp[1]])  # orientation as UFL's geometry lowering defines it (v0 - v1)
+            if isinstance(e, U.CellDiameter):
+                return float(max(np.linalg.norm(V[i] - V[j]) for i in range(len(V)) for j in range(i)))
+            if isinstance(e, U.MinCellEdgeLength | U.MaxCellEdgeLength):
+                ls = [np.linalg.norm(V[b] - V[a]) for a, b in edges]
+                return float(min(ls) if isinstance(e, U.MinCellEdgeLength) else max(ls))
+            if cell.tdim != 3 or s.facet is None:
+                raise Unsupported(f"{type(e).__name__} outside a facet integral of a 3D cell")
+            fe = [edges[k] for k in basix.cell.sub_entity_connectivity(cell.ct)[2][s.facet][1]]
+            if isinstance(e, U.FacetEdgeVectors):
+                a, b = fe[comp[0]]
+                return float(V[a][comp[1]] - V[b][comp[1]])
+            ls = [np.linalg.norm(V[b] - V[a]) for a, b in fe]
+            return float(min(ls) if isinstance(e, U.MinFacetEdgeLength) else max(ls))
         raise Unsupported(f"terminal {type(e).__name__}")
